@@ -69,6 +69,8 @@ def gen_client(rng: random.Random, mode: str, n_ops: int, defs=None):
                     ops.append({"op": "redefine", "name": rng.choice(defs["defines"])[0], "v": rng.randint(0, 4), "via": rng.choice(["load", "consts"])})
                 else:
                     ops.append({"op": "dump", "h": h})
+            elif r < 0.625:
+                ops.append({"op": "ptr_twins", "t": t, "seed": rng.getrandbits(30)})
             elif r < 0.66:
                 # a structure of this client built through the Python API: update blocks stay open ACROSS other clients' ops
                 bn = rng.choice(["B1", "B1", "B2"])
@@ -359,6 +361,27 @@ def _blob_class():
     return _BLOB[0]
 
 
+def _mutate_first_int(v, depth=0):
+    from dissect.cstruct.types import Structure
+
+    if depth > 3:
+        return
+    for fld in type(v).__fields__:
+        x = getattr(v, fld._name, None)
+        if isinstance(x, int) and not isinstance(x, bool) and fld.bits is None and not hasattr(x, "name") and type(x).__name__ != "int":
+            try:
+                object.__setattr__(v, fld._name, type(x)((int.__index__(x) + 1) & 0x7F))
+                return
+            except Exception:  # noqa: BLE001
+                pass
+        elif isinstance(x, list):
+            x.append(0)
+            return
+        elif isinstance(x, Structure) and not hasattr(x, "_buf"):
+            _mutate_first_int(x, depth + 1)
+            return
+
+
 def _load_defs(cs, spec):
     kw = {"compiled": spec["cfg"]["compiled"], "align": spec["cfg"]["align"]}
     if spec.get("late_defines"):
@@ -535,6 +558,47 @@ def exec_op(cl: Client, op, stats, mode, peers=None):
                 return ["type", t.__name__, getattr(t, "size", None)]
             except Exception:
                 return ["const", repr(cs.consts[op["name"]])]
+        return _outcome(f)
+    if k == "ptr_twins":
+        # two instances parsed from the SAME stream object: what their pointers lead to are independent objects
+        from dissect.cstruct.types import Pointer, Structure
+
+        def f():
+            t = getattr(cs, op["t"])
+            data = gen.gen_bytes(random.Random(op["seed"]), 160)
+            st = io.BytesIO(data)
+            a = t(st)
+            st.seek(0)
+            b = t(st)
+            n = 0
+            for fld in type(a).__fields__:
+                pa, pb = getattr(a, fld._name, None), getattr(b, fld._name, None)
+                if not (isinstance(pa, Pointer) and isinstance(pb, Pointer)):
+                    continue
+                da = db = None
+                for delta in (None, 16, 8, 1):
+                    try:
+                        # the pointers as parsed, else pointers derived from them by arithmetic to a nearby address
+                        qa = pa if delta is None else (pa - int.__index__(pa)) + delta
+                        qb = pb if delta is None else (pb - int.__index__(pb)) + delta
+                        da, db = qa.dereference(), qb.dereference()
+                        if isinstance(da, (Structure, list)):
+                            break
+                    except Exception:  # noqa: BLE001
+                        da = db = None
+                if not isinstance(da, (Structure, list)):
+                    continue
+                n += 1
+                before = observe(db)
+                if isinstance(da, list):
+                    da.append(da[0] if da else 0)
+                else:
+                    _mutate_first_int(da)
+                if da is db or observe(db) != before:
+                    raise Violation("frame", "dereferenced_targets_of_two_instances_shared",
+                                    f"{op['t']}.{fld._name}: two instances parsed from the same stream object share the object their pointers lead to")
+            stats.count("probe.ptr_twins_targets_compared", n)
+            return ["ok", n]
         return _outcome(f)
     if k.startswith("custom_"):
         if not cl.spec.get("custom"):
